@@ -1,5 +1,6 @@
 import H2.Proofs.ClientInter
 import H2.Proofs.ClientGoAway
+import H2.Proofs.ClientRunGoAway
 /-!
 # C11 — the client honours GOAWAY; only a never-processed request is called retryable
 
@@ -194,5 +195,68 @@ example :
     (rdFrame (rdFrame (rdFrame cW goAwayFrame).1 ⟨Gen.c_FrameHeaders, 4, 1, 1, .headers false true none [0x88]⟩).1
       ⟨Gen.c_FrameData, 1, 1, 1, .data true [120]⟩).2 = true := by
   decide
+
+/-! ## the FULL serial model, every run (`H2.Client.run`, any event list)
+
+NEEDS `import H2.Proofs.ClientRunGoAway` at the top of this file. `goaway_honoured` above is about ONE frame; here the
+same for whole runs of `H2.Client.step` from the connection the driver creates (`Init`, see `Props/C12.lean`).
+Proofs: `H2/Proofs/ClientRunHdr.lean` (`step_frames_spec`: which steps write HEADERS) and `ClientRunGoAway.lean`. -/
+
+section FullModel
+open H2.Client
+
+/-- **Full.no_new_stream_after_goaway**: in any run, once the connection has processed a GOAWAY frame (`goAway`, or
+`stateClosed` which implies it), no later step writes a HEADERS frame, whatever the events are: no new stream is opened.
+(Requests that arrive afterwards are turned away with `ErrNotAvailableStreams`: `no_stream_after_goaway`.) -/
+theorem Full.no_new_stream_after_goaway (c : Conn) (h : Init c) (pre post : List Event)
+    (hg : (run c pre).1.goAway = true ∨ (run c pre).1.stateClosed = true) :
+    AllSteps (fun _ _ c' o => c'.goAway = true ∧ writesHeaders o = false) (run c pre).1 post := by
+  have hi := run_hinv (init_hinv h) pre
+  exact no_headers_after_goaway _ hi (hg.elim id hi.closed) post
+
+/-- **Full.goaway_frame_sets_flag**: in every reachable state, a GOAWAY frame handed to the read loop sets the flag,
+whatever its last-stream-id -/
+theorem Full.goaway_frame_sets_flag (c : Conn) (h : Init c) (evs : List Event) (f : Frame.Frame) (last code : Nat) (d : Bytes)
+    (hs : f.stream = 0) (hb : f.body = .goAway last code d) : (rdFrame (run c evs).1 f).1.goAway = true :=
+  rdFrame_goaway_sets _ (run_invariant (init_inv h) evs).keys f last code d hs hb
+
+/-- **Full.goaway_disclaims**: what GOAWAY(last > 0) does in ANY state, request by request.
+(1) A request waiting (no result, not taken back) on a stream above `last` holds exactly `goAwayErr` afterwards:
+`ErrConnectionClosed` (retryable) unless its body came from a reader (`goAwayErr_retryable`).
+(2) A request none of whose streams is above `last` is not touched at all (no error from the GOAWAY) and its streams stay
+in the table: its response is still awaited. -/
+theorem Full.goaway_disclaims (c : Conn) (f : Frame.Frame) (last code : Nat) (d : Bytes)
+    (hs : f.stream = 0) (hb : f.body = .goAway last code d) (hl : 0 < last) :
+    (∀ sid tag r, (sid, tag) ∈ c.reqQueued → sid > last → getReq c tag = some r → r.done = false → r.errBuf = none →
+      getReq (rdFrame c f).1 tag = some { r with errBuf := some (goAwayErr r) }) ∧
+    (∀ tag, (∀ sid, (sid, tag) ∈ c.reqQueued → sid ≤ last) →
+      getReq (rdFrame c f).1 tag = getReq c tag ∧
+      ∀ sid, (sid, tag) ∈ c.reqQueued → (sid, tag) ∈ (rdFrame c f).1.reqQueued) :=
+  H2.Client.goaway_disclaims c f last code d hs hb hl
+
+/-! ### non-vacuity: two requests, GOAWAY(last = 1), a third request -/
+
+def fullReq (tag : String) : ReqSpec :=
+  { tag := tag, method := [71, 69, 84], scheme := [104, 116, 116, 112, 115], host := [104], path := [47], ua := [117],
+    hdrs := [], body := .none }
+
+/-- GOAWAY, last-stream-id 1, NO_ERROR -/
+def fullGoAway : List Nat := [0, 0, 8, 7, 0, 0, 0, 0, 0, 0, 0, 0, 1, 0, 0, 0, 0]
+
+def fullRun : List Event := [.req (fullReq "a"), .req (fullReq "b"), .bytes fullGoAway, .req (fullReq "c"), .read "b", .read "c"]
+
+/-- the two requests open streams, the flag is set by the GOAWAY, the third request writes nothing -/
+example : (run {} fullRun).2.map writesHeaders = [true, true, false, false, false, false] ∧
+    (run {} (fullRun.take 3)).1.goAway = true ∧ (run {} (fullRun.take 3)).1.stateClosed = true := by decide +kernel
+
+/-- "b" (stream 3 > 1) is disclaimed with the retryable error, "a" (stream 1) is left waiting without an error, "c" is
+turned away with the other retryable error -/
+example : ((run {} fullRun).1.reqs.map fun q => (q.tag, q.sid, q.errBuf, q.done)) =
+    [("a", 1, none, false), ("b", 3, none, true), ("c", 0, none, true)] ∧
+    (getReq (run {} (fullRun.take 4)).1 "b").map (·.errBuf) = some (some .connClosed) ∧
+    (getReq (run {} (fullRun.take 4)).1 "c").map (·.errBuf) = some (some .noStreams) ∧
+    (run {} (fullRun.take 4)).1.reqQueued = [(1, "a")] := by decide +kernel
+
+end FullModel
 
 end H2.Props.C11
